@@ -104,6 +104,10 @@ pub enum VD {
     Tup(Vec<VD>),
     Map(Vec<(VD, VD)>),
     Plain(String),
+    /// a lazily produced sequence (`lazy::LAZY_SEQ_KINDS`)
+    Lazy(&'static str, Vec<VD>),
+    /// a custom map object (`lazy::LAZY_MAP_KINDS`): members in enumeration order
+    LazyMap(&'static str, Vec<(VD, VD)>),
 }
 
 impl VD {
@@ -139,6 +143,17 @@ impl VD {
             VD::Tup(xs) => Value::from(Tuple::from(xs.iter().map(|x| x.build()).collect::<Vec<_>>())),
             VD::Map(kvs) => Value::from_pairs(kvs.iter().map(|(k, v)| (k.build(), v.build()))),
             VD::Plain(s) => Value::from_object(PlainObj(s.clone())),
+            VD::Lazy(kind, xs) => super::lazy::build_lazy_seq(kind, xs.iter().map(|x| x.build()).collect()),
+            VD::LazyMap(kind, kvs) => super::lazy::build_lazy_map(kind, kvs.iter().map(|(k, v)| (k.build(), v.build())).collect()),
+        }
+    }
+
+    /// the items iteration yields (the `Empty` / `NonEnumerable` answers yield nothing)
+    pub fn lazy_items<'a>(kind: &str, xs: &'a [VD]) -> &'a [VD] {
+        if kind == "ce" || kind == "cn" {
+            &[]
+        } else {
+            xs
         }
     }
 
@@ -166,6 +181,19 @@ impl VD {
                 }
             }
             VD::Plain(s) => out.push(format!("O{}", mjh::hex(s.as_bytes()))),
+            VD::Lazy(kind, xs) => {
+                out.push(format!("Z{kind}"));
+                out.push(xs.len().to_string());
+                xs.iter().for_each(|x| x.text(out));
+            }
+            VD::LazyMap(kind, kvs) => {
+                out.push(format!("W{kind}"));
+                out.push(kvs.len().to_string());
+                for (k, v) in kvs {
+                    k.text(out);
+                    v.text(out);
+                }
+            }
         }
     }
     pub fn to_text(&self) -> String {
@@ -197,6 +225,22 @@ pub fn parse_vd(t: &mut Toks) -> Result<VD, String> {
         "S" => VD::Str(utf8(rest)?, true),
         "y" => VD::Bytes(mjh::unhex(rest)),
         "O" => VD::Plain(utf8(rest)?),
+        "Z" => {
+            let kind = *super::lazy::LAZY_SEQ_KINDS.iter().find(|k| **k == rest).ok_or("bad lazy kind")?;
+            let n = t.num()?;
+            VD::Lazy(kind, (0..n).map(|_| parse_vd(t)).collect::<Result<Vec<_>, _>>()?)
+        }
+        "W" => {
+            let kind = *super::lazy::LAZY_MAP_KINDS.iter().find(|k| **k == rest).ok_or("bad lazy map kind")?;
+            let n = t.num()?;
+            let mut v = vec![];
+            for _ in 0..n {
+                let k = parse_vd(t)?;
+                let x = parse_vd(t)?;
+                v.push((k, x));
+            }
+            VD::LazyMap(kind, v)
+        }
         "L" | "P" => {
             let n = t.num()?;
             let xs = (0..n).map(|_| parse_vd(t)).collect::<Result<Vec<_>, _>>()?;
@@ -250,7 +294,12 @@ pub fn json_image(v: &VD) -> Result<serde_json::Value, &'static str> {
         VD::Str(s, _) | VD::Plain(s) => J::String(s.clone()),
         VD::Bytes(b) => J::Array(b.iter().map(|x| J::from(*x)).collect()),
         VD::Seq(xs) | VD::Tup(xs) => J::Array(xs.iter().map(json_image).collect::<Result<_, _>>()?),
-        VD::Map(kvs) => {
+        VD::Lazy(kind, xs) => J::Array(VD::lazy_items(kind, xs).iter().map(json_image).collect::<Result<_, _>>()?),
+        VD::LazyMap(kind, kvs) if *kind == "wn" => {
+            let _ = kvs;
+            J::Object(serde_json::Map::new())
+        }
+        VD::Map(kvs) | VD::LazyMap(_, kvs) => {
             let mut m = serde_json::Map::new();
             for (k, x) in kvs {
                 let ks = match k {
